@@ -109,6 +109,9 @@ PROPS["C13"] = D("cases are seeded event histories before and after Leave(), bot
 PROPS["C29"] = B("cases are 1-4 writer tasks x 1-4 uniquely numbered lines against the real GatedWriter (with one Flush task) or the real logWriter (ring sizes 1,2,8,512; 1-3 monitors attaching mid-stream), plus the PRNG-chosen schedule at every lock yield and at the split read-modify-write of the buffer; distinct = distinct (workload, schedule) hash; non-trivial = more than one decision point with several runnable goroutines",
     "Seeded schedule exploration of the real log writers (overlay copies). GatedWriter: every line reaches the underlying writer exactly once, and a line whose Write returned before Flush was called precedes every line whose Write began after Flush was called. logWriter: each monitor's sequence must equal last-min(ring,p)-lines followed by all later lines for an attach point p consistent with real-time order. Exact replay.",
     quick=(8000, 45), thorough=(400000, 900))
+PROPS["C34"] = B("cases are 2-4 concurrent tasks x 1-3 calls from {Join, Leave, Shutdown, State} on one real node (with a real passive peer, optionally already joined so that Leave broadcasts and waits), plus the PRNG-chosen schedule at every lock/channel yield of the instrumented serf package and fake-clock advances racing with runnable goroutines (Leave sleeps on timers); distinct = distinct (workload, schedule) hash; non-trivial = more than one decision point with several runnable goroutines",
+    "Seeded schedule exploration of the real lifecycle calls. Oracle: the process survives; the globally ordered State() samples are monotone in alive<leaving<left<shutdown; Shutdown always returns nil and leaves the state at shutdown; Leave after a completed Leave returns nil; a Join invoked after the caller itself observed a non-alive state is refused; every call returns (step cap). Exact replay.",
+    quick=(2500, 60), thorough=(150000, 1200))
 PROPS["C14"] = D("cases are seeded histories against a real Serf node whose snapshot lives on simfs: user events and queries delivered by gossip and push/pull, real joins (with/without ignoreOld) against a real peer holding events, fake-time advances around the 500 ms flush interval, and 1-3 restarts (crash: only bytes already handed to the OS survive; or clean shutdown) followed by old and new messages; distinct = distinct step-list hash; non-trivial = messages injected after a restart",
     "Seeded exploration; E and Q are read by the real recovery from the image the restart starts from; any user event with time <= E or query with time <= Q on the application channel after the restart is a violation. Exact replay.",
     quick=(2500, 60), thorough=(100000, 1200),
